@@ -34,19 +34,6 @@ def run_profile(prop, profiles, n, extra_lines=None, nsteps=(5, 10)):
     lines = [l if l.startswith("P ") else "P %d ; %s" % (e2e.project_depth(), l) for l in lines]
     for i, (l, rr, m) in enumerate(zip(lines, reals, models)):
         d = e2e.compare(l, rr, m)
-        if d and any("check:" in st[1] for st in m):
-            # redo-unlocked receives the out-of-band targets in HashSet order (random per
-            # process): when more than one is needed the build order is genuinely
-            # nondeterministic.  The model fixes one order; accept the history if some
-            # re-execution of the implementation takes that order.
-            for k in range(6):
-                retried += 1
-                rr2 = e2e.run_real(bindir, l, "r%d_%d" % (i, k))
-                d2 = e2e.compare(l, rr2, m)
-                if d2 is None:
-                    d = None
-                    reals[i] = rr2
-                    break
         if d:
             d["history"] = l
             dis.append(d)
@@ -56,7 +43,7 @@ def run_profile(prop, profiles, n, extra_lines=None, nsteps=(5, 10)):
 
 
 def steps_of(line):
-    return [t for t in e2e.parse_history(line) if t[0] != "P"]
+    return [t for t in e2e.parse_history(line) if t[0] not in ("P", "H")]
 
 
 def nontrivial_count(lines):
